@@ -17,7 +17,7 @@ func TestC02(t *testing.T) {
 		"the engine's map iteration order cannot be seeded: every case is executed 2-3 times")
 	defer col.Flush()
 	cfg := rsGenCfg{Rules: fullRuleCfg(), GRB: true, Vary: true}
-	check(t, 0, budget(1500, 60000), func(rt *rapid.T) {
+	check(t, 0, budget(6000, 80000), func(rt *rapid.T) {
 		c, rs := genRSCase(rt, cfg)
 		rep, v := runValidated(rt, c, "C02")
 		nt := rep.FlipsFT > 0 || (rep.EndedBy == "quiescence" && rep.Firings >= 2)
